@@ -56,9 +56,14 @@ func specDir(sc *Scratch, name string) (string, error) {
 func runTLC(dir, module, cfg string, workers int, timeout time.Duration, extra ...string) (*TLCResult, error) {
 	meta := filepath.Join(dir, "md-"+strings.TrimSuffix(cfg, ".cfg"))
 	os.RemoveAll(meta)
-	args := []string{"-XX:+UseParallelGC", "-Xss512m",
+	gc := []string{"-XX:+UseParallelGC"}
+	if workers == 1 {
+		// trace validation runs many single-worker JVMs side by side
+		gc = []string{"-XX:+UseParallelGC", "-XX:ParallelGCThreads=2", "-Xmx6g", "-XX:TieredStopAtLevel=4"}
+	}
+	args := append(gc, "-Xss512m",
 		"-cp", "/opt/veriftools/tla/tla2tools.jar:/opt/veriftools/tla/CommunityModules-deps.jar",
-		"tlc2.TLC", "-metadir", meta, "-noGenerateSpecTE", "-config", cfg, "-workers", strconv.Itoa(workers)}
+		"tlc2.TLC", "-metadir", meta, "-noGenerateSpecTE", "-config", cfg, "-workers", strconv.Itoa(workers))
 	args = append(args, extra...)
 	args = append(args, module)
 	ctx, cancel := context.WithTimeout(context.Background(), timeout)
@@ -121,6 +126,7 @@ type Mismatch struct {
 	Hdr   string `json:"hdr"`
 	Info  string `json:"info"`
 	Sig   string `json:"sig"`
+	Casc  bool   `json:"casc"`
 }
 
 type Drift struct {
